@@ -120,6 +120,11 @@ func nets(c *vf.Ctx) []chain.NetSpec {
 	place := [][2]uint64{{4, 9}, {2, 5}, {6, 7}}
 	if c.Quick() {
 		place = place[:2]
+	} else {
+		// thorough: longer maturity delays and every (allow, require) placement pattern: adjacent, far apart, allow at
+		// the first block, require late
+		mats = []uint64{0, 1, 2, 3, 4, 5}
+		place = append(place, [2]uint64{1, 2}, [2]uint64{1, 10}, [2]uint64{3, 4}, [2]uint64{5, 11}, [2]uint64{8, 9}, [2]uint64{2, 12})
 	}
 	for _, m := range mats {
 		for _, pl := range place {
@@ -528,7 +533,7 @@ func useRenewWithPH(w *chain.World, fce types.V2FileContractElement, f types.Sia
 }
 
 func run(c *vf.Ctx) {
-	c.Set("rule", "for every network configuration (maturity delay 0..3 x allow/require placements, v1-only variants) and every rule of the boundary table: the otherwise-valid transaction is probed in a block at EVERY height of a window covering bound-2..bound+1 (timestamps irregular; after(t) probed with t = median-1s, median, median+1s at every height); oracle: accepted iff the independent rule predicate holds (both directions); states = (network, rule, creation height, bound) tuples, transitions = ValidateBlock probes")
+	c.Set("rule", "for every network configuration (maturity delay 0..3 (thorough 0..5) x allow/require placements (quick 2, thorough 9), v1-only variants) and every rule of the boundary table: the otherwise-valid transaction is probed in a block at EVERY height of a window covering bound-2..bound+1 (timestamps irregular; after(t) probed with t = median-1s, median, median+1s at every height); oracle: accepted iff the independent rule predicate holds (both directions); states = (network, rule, creation height, bound) tuples, transitions = ValidateBlock probes")
 	keys := chain.NewKeys(c.Seed)
 	ns := nets(c)
 	c.Set("network_configurations", len(ns))
